@@ -397,7 +397,9 @@ func (s *Store) ensureOCILayoutFile() error {
 		if err != nil {
 			return fmt.Errorf("failed to marshal OCI layout file: %w", err)
 		}
-		return os.WriteFile(layoutFilePath, layoutJSON, 0666)
+		// a crash in the middle of an in-place write would leave a truncated
+		// oci-layout behind, which no later New() could read
+		return writeFileAtomic(layoutFilePath, layoutJSON, 0666)
 	}
 	defer layoutFile.Close()
 
